@@ -31,7 +31,12 @@ CLAIMED['C05'] = dict(text='The structured neighbourhood of valid KRPC messages 
              ref='DESIGN.md section 5 C05', technique='TLA+ shape space enumerated by TLC, replayed on decoder / live nodes / API callers; liveness observations judged by TLC')
 CLAIMED['C09'] = dict(text='Sock.tla models the in-flight table and the attribution rule; TLC checks OnlyAddressee, SpoofIsStutter, GenuineStillAccepted and AtMostOnce for every possible incoming (tid, address) in every reachable state with an adversary that knows the sequential ids, and enumerates the injection plans. Each plan runs on a real client against fake peers; SockTrace rebuilds the model in-flight table from the observed sends and judges the observed effect of every delivered response/error (in-flight table, query / put / table / vote / caller state via H4 snapshots) and the final API result against an injection-free run.',
              ref='DESIGN.md section 5 C09', technique='TLA+ Sock module: TLC exhaustive MC + TLC-enumerated injection plans on the real node + TLC trace validation of snapshot deltas')
-NOTE = {'C09': 'Trusted base: TLC; the H4 snapshot projection; the settle-tick argument (state is a fixpoint of input-less ticks at a frozen instant). Replies to expired requests are only required to leave query/table state unchanged.', 'C10': 'Trusted base: TLC; the harness bencode/KRPC codec (independent of serde_bencode); the H3 WireMessage mirror of the crate-private Message.', 'C05': 'Trusted base: TLC; catch_unwind / thread-death detection in the simulator; the shape space is the bounded neighbourhood stated in MC_KrpcShapes plus seeded random mutations - not all byte strings up to the MTU.', 'C16': 'Trusted base: TLC; the lock-step simulator (production actor::run thread); fake peers signing authentic items; arrival order read from the simulator datagram log.', 'C11': RT_NOTE, 'C12': RT_NOTE, 'C19': 'Trusted base: TLC, CommunityModules Bitwise; the harness char->code point conversion. The 2^28 sweep is a Rust comparison against a reference that TLC validates on sampled vectors, not a TLC verdict.', 'C03': SERVER_NOTE, 'C04': SERVER_NOTE, 'C15': SERVER_NOTE + ' CRC32C token forgery by linearity is out of scope (design matter).'}
+PUTQ_NOTE = 'Trusted base: TLC; the simulator (reply delays decide the arrival order); fake peers; arrivals-while-pending computed from the datagram log and the observed completion instant.'
+CLAIMED['C08'] = dict(text='PutQ.tla models the tallies (bubbling rule), check() with its 3xx majority early exit and the final decision; TLC evaluates OkIffAck / ConcurrencyOnlyIfAnswered / QueryErrorOtherwise on every run (kind x replica-set size x arrival sequence, the rest lost) and generates those runs; each is executed by a real writer against fake storage peers (large sets through extra_nodes), and TLC validates the observed result against the model and the L1 formulas on the arrivals that reached the writer while the call was pending, plus token ownership of every store request. The literal OkIffAck is known to fail for >= 5 nodes (KF-C08-1); the model reproduces it.',
+             ref='DESIGN.md section 5 C08', technique='TLA+ PutQ module: TLC exhaustive enumeration of store-phase runs + replay on a real writer + TLC trace validation')
+CLAIMED['C17'] = dict(text='PutQ.tla carries the local conflict rule table (LocalRule) and the majority rule; TLC checks the rule table over all item relations; the harness places a second put_mutable at each phase of the first one (during its lookup, in its store phase, after completion) for every relation (same item, seq lower/equal/higher, cas none/0/1/2) on a real node and TLC judges both callers\' results, that each gets exactly one, and that the replaced query leaks no caller; 301/302 majorities and non-mutable kinds are covered by the store-phase runs.',
+             ref='DESIGN.md section 5 C17', technique='TLA+ PutQ module: rule table checked by TLC + phase-placed conflict scenarios on the real node + TLC trace validation')
+NOTE = {'C08': PUTQ_NOTE, 'C17': PUTQ_NOTE, 'C09': 'Trusted base: TLC; the H4 snapshot projection; the settle-tick argument (state is a fixpoint of input-less ticks at a frozen instant). Replies to expired requests are only required to leave query/table state unchanged.', 'C10': 'Trusted base: TLC; the harness bencode/KRPC codec (independent of serde_bencode); the H3 WireMessage mirror of the crate-private Message.', 'C05': 'Trusted base: TLC; catch_unwind / thread-death detection in the simulator; the shape space is the bounded neighbourhood stated in MC_KrpcShapes plus seeded random mutations - not all byte strings up to the MTU.', 'C16': 'Trusted base: TLC; the lock-step simulator (production actor::run thread); fake peers signing authentic items; arrival order read from the simulator datagram log.', 'C11': RT_NOTE, 'C12': RT_NOTE, 'C19': 'Trusted base: TLC, CommunityModules Bitwise; the harness char->code point conversion. The 2^28 sweep is a Rust comparison against a reference that TLC validates on sampled vectors, not a TLC verdict.', 'C03': SERVER_NOTE, 'C04': SERVER_NOTE, 'C15': SERVER_NOTE + ' CRC32C token forgery by linearity is out of scope (design matter).'}
 NA_REASON = {}
 
 def main():
